@@ -92,6 +92,9 @@ FILE_HARNESSES = [
     # typed messages sharing one (fresh) serializer, written through the plain Logger to a file destination
     ["typed", [[1], [2]]],
     ["typed", [[1, 2], [3]]],
+    # a line larger than io.DEFAULT_BUFFER_SIZE next to small ones
+    ["big", [[1], [2]]],
+    ["big", [[2, 1], [3]]],
 ]
 VALIDATION_FILE = eliot._validation.__file__
 
@@ -296,8 +299,13 @@ class RecFile(object):
 def run_file(hi, bound, shard=(0, 1)):
     harness = FILE_HARNESSES[hi]
     typed = harness[0] == "typed"
-    if typed:
+    big = harness[0] == "big"
+    if typed or big:
         harness = harness[1]
+
+    def pad(i):
+        return "x" * (9000 if big and i == 1 else i)
+
     world.fresh()
     import json as _json
 
@@ -320,13 +328,13 @@ def run_file(hi, bound, shard=(0, 1)):
                         logger.write({"message_type": "c16:shared", "id": i, "thread": ti, "pad": "x" * i,
                                       "task_uuid": "u", "task_level": [i], "timestamp": float(i)}, T._serializer)
                     else:
-                        dest({"id": i, "thread": ti, "pad": "x" * i})
+                        dest({"id": i, "thread": ti, "pad": pad(i)})
 
             return g
 
         def observe(s):
             data = b"".join(f.calls)
-            return {"writes": len(f.calls), "data": data.decode("utf-8")}
+            return {"writes": len(f.calls), "data": data.decode("utf-8").replace("x" * 9000, "<9000 x>")}
 
         return [("T%d" % i, body(i)) for i in range(len(harness))], observe
 
@@ -365,6 +373,8 @@ def run_file(hi, bound, shard=(0, 1)):
                     ok = False
         if not ok or sorted(got) != want:
             viol.append(("file-lines-torn-merged-or-dropped", {"data": data[:300], "schedule": sched}))
+        elif big and any(l and _json.loads(l)["id"] == 1 and _json.loads(l)["pad"] != "<9000 x>" for l in lines[:-1]):
+            viol.append(("file-big-line-content", {"data": data[:200]}))
         elif any(per_thread.get(ti, []) != list(harness[ti]) for ti in range(len(harness))):
             viol.append(("file-per-thread-order", {"data": data[:300]}))
         if len(viol) >= 3:
